@@ -587,6 +587,16 @@ func (c *ctx) triple(l, d, res string, class string) {
 	}
 }
 
+func (c *ctx) eqPair(a, b jid.JID) {
+	r := c.r
+	eq := a.Equal(b)
+	r.Line("eq "+enc(a)+" "+enc(b), common.B(eq))
+	same := a.Localpart() == b.Localpart() && a.Domainpart() == b.Domainpart() && a.Resourcepart() == b.Resourcepart()
+	if eq != same || eq != b.Equal(a) {
+		c.fail("accessors-agree", "equal", []string{r.Prop + " eq " + enc(a) + " " + enc(b)}, "Equal(%q,%q) = %v, parts equal = %v", a.String(), b.String(), eq, same)
+	}
+}
+
 func (c *ctx) equalPairs() {
 	r := c.r
 	for i := 0; i < len(c.pool); i++ {
@@ -607,12 +617,7 @@ func (c *ctx) equalPairs() {
 					b = jid.NewUnsafe(l+d, res, "").JID
 				}
 			}
-			eq := a.Equal(b)
-			r.Line("eq "+enc(a)+" "+enc(b), common.B(eq))
-			same := a.Localpart() == b.Localpart() && a.Domainpart() == b.Domainpart() && a.Resourcepart() == b.Resourcepart()
-			if eq != same || eq != b.Equal(a) {
-				c.fail("accessors-agree", "equal", []string{r.Prop + " eq " + enc(a) + " " + enc(b)}, "Equal(%q,%q) = %v, parts equal = %v", a.String(), b.String(), eq, same)
-			}
+			c.eqPair(a, b)
 		}
 	}
 }
@@ -717,6 +722,30 @@ func Run(r *common.Run) error {
 				if len(f) >= 5 {
 					c.triple(un(f[2]), un(f[3]), un(f[4]), "replay")
 				}
+			case "seq":
+				ops, err := decodeSeq(f[2])
+				if err != nil {
+					return err
+				}
+				c.runSeq(ops, "replay")
+			case "eq":
+				if len(f) >= 8 {
+					mk := func(data, ll, dl string) (jid.JID, bool) {
+						d := un(data)
+						a, _ := strconv.Atoi(ll)
+						b, _ := strconv.Atoi(dl)
+						if a+b > len(d) {
+							return jid.JID{}, false
+						}
+						return jid.NewUnsafe(d[:a], d[a:a+b], d[a+b:]).JID, true
+					}
+					a, ok1 := mk(f[2], f[3], f[4])
+					b, ok2 := mk(f[5], f[6], f[7])
+					if ok1 && ok2 {
+						c.pool = []jid.JID{a, b}
+						c.eqPair(a, b)
+					}
+				}
 			case "withl", "withd", "withr", "str", "parts":
 				if len(f) >= 5 {
 					data := un(f[2])
@@ -752,6 +781,9 @@ func Run(r *common.Run) error {
 	for _, t := range [][3]string{{"", "example.com..", ""}, {"a", "b｡", "r"}, {"a", "b", "r"}, {"", "b", ""}, {"A", "B.", "R"}, {"a@", "b", ""}, {"", "[::1]", "r"}} {
 		c.triple(t[0], t[1], t[2], "corpus")
 	}
+
+	// operation sequences on live values (clause immutable)
+	c.sequences()
 
 	// exhaustive: every string up to length L over {a @ / .}
 	maxLen := r.Pick(6, 8)
